@@ -20,9 +20,39 @@ pub struct Call {
     pub res: Res,
 }
 
+/// which handlers each operation invoked (with which arguments), in order: part of what a call "returned",
+/// so that a sequential order must explain not only the value but also WHICH handler ran and how often
+pub fn handlers_by_op(log: &[Ev]) -> BTreeMap<OpId, String> {
+    let mut cur: BTreeMap<usize, OpId> = BTreeMap::new();
+    let mut out: BTreeMap<OpId, String> = BTreeMap::new();
+    for e in log {
+        match e {
+            Ev::Inv { op, task } => {
+                cur.insert(*task, *op);
+            }
+            Ev::Ret { task, .. } => {
+                cur.remove(task);
+            }
+            Ev::H { hid, task, args } => {
+                if let Some(op) = cur.get(task) {
+                    let sig = format!("h{}({});", hid, args.iter().map(|a| a.show()).collect::<Vec<_>>().join(","));
+                    out.entry(*op).or_default().push_str(&sig);
+                }
+            }
+            _ => {}
+        }
+    }
+    out
+}
+
+fn with_handlers(res: &Res, sig: Option<&String>) -> Res {
+    Res::Many(vec![res.clone(), Res::Text(sig.cloned().unwrap_or_default())])
+}
+
 pub fn calls_of(out: &RunOutput) -> Vec<Call> {
     let mut inv: BTreeMap<OpId, (usize, usize)> = BTreeMap::new();
     let mut calls = vec![];
+    let sigs = handlers_by_op(&out.log);
     for (seq, e) in out.log.iter().enumerate() {
         match e {
             Ev::Inv { op, task } => {
@@ -30,7 +60,7 @@ pub fn calls_of(out: &RunOutput) -> Vec<Call> {
             }
             Ev::Ret { op, res, .. } => {
                 if let Some((i, task)) = inv.get(op) {
-                    calls.push(Call { id: *op, task: *task, inv: *i, ret: seq, res: res.clone() });
+                    calls.push(Call { id: *op, task: *task, inv: *i, ret: seq, res: with_handlers(res, sigs.get(op)) });
                 }
             }
             _ => {}
@@ -76,8 +106,11 @@ impl SeqOracle {
         let out = rt.oracle_sim(&Arc::new(c));
         self.runs += 1;
         let mut rs = vec![];
+        let sigs = handlers_by_op(&out.log);
         for i in 0..order.len() {
-            rs.push(out.result_of(OpId::Pre(n0 + i)).cloned().unwrap_or(Res::P("oracle run did not complete".into())));
+            let id = OpId::Pre(n0 + i);
+            let r = out.result_of(id).cloned().unwrap_or(Res::P("oracle run did not complete".into()));
+            rs.push(with_handlers(&r, sigs.get(&id)));
         }
         for k in 1..=order.len() {
             self.memo.entry(order[..k].to_vec()).or_insert_with(|| rs[..k].to_vec());
